@@ -278,7 +278,7 @@ func enumOps(n int, f func(string)) {
 
 func TestC11(t *testing.T) {
 	r := ev.Start("C11", "exploration")
-	r.Rule("for both secure-memory implementations (real mlock'd pages): (1) every sequence of exactly L operations over {WithBytes, WithBytesFunc, nested reader, io.Reader read, Close, IsClosed} after New and CreateRandom for sizes {1,31,32,33,4095,4096,4097,12288,12289}; bytes, errors and IsClosed are compared with a model after every step and, for a subset, the kernel's view of the secret's address in /proc/self/smaps is sampled inside reader callbacks (r--, locked), between operations (---, locked, not dumpable) and after Close (unmapped or not locked); faults are turned into panics with debug.SetPanicOnFault and attributed. (2) R in 1..8 concurrent readers x C in 1..3 concurrent closers per round with seeded yields inside callbacks, inside synctest bubbles (a Close that never returns is a detected deadlock) under the race detector: readers see the original bytes or the closed error, no reader callback is running when any Close returns, nothing faults. Distinct+non-trivial: distinct (impl, size, creator, sequence) cases containing a Close followed by another access, and distinct observed reader/closer completion orders.")
+	r.Rule("for both secure-memory implementations (real mlock'd pages): (1) every sequence of exactly L operations over {WithBytes, WithBytesFunc, nested reader, io.Reader read, Close, IsClosed} after New and CreateRandom for sizes {1,31,32,33,4095,4096,4097,12288,12289}; bytes, errors and IsClosed are compared with a model after every step and, for a subset, the kernel's view of the secret's address in /proc/self/smaps is sampled inside reader callbacks (r--, locked), between operations (---, locked, not dumpable) and after Close (unmapped or not locked); faults are turned into panics with debug.SetPanicOnFault and attributed. (2) reader callbacks that panic (recovered by the caller) through WithBytes, WithBytesFunc and nested readers, in bubbles: pages back to ---, later readers work, Close neither blocks nor fails. (3) R in 1..8 concurrent readers x C in 1..3 concurrent closers per round with seeded yields inside callbacks, inside synctest bubbles (a Close that never returns is a detected deadlock) under the race detector: readers see the original bytes or the closed error, no reader callback is running when any Close returns, nothing faults. Distinct+non-trivial: distinct (impl, size, creator, sequence) cases containing a Close followed by another access, and distinct observed reader/closer completion orders.")
 	r.Assume("/proc/self/smaps is the kernel's ground truth for protection and mlock state", "core dumps are disabled process-wide by the memguard core package (RLIMIT_CORE=0), which the oracle accepts in place of MADV_DONTDUMP")
 	sizes := []int{1, 31, 32, 33, 4095, 4096, 4097, 12288, 12289}
 	L := ev.Pick(3, 5)
@@ -312,6 +312,7 @@ func TestC11(t *testing.T) {
 	}
 	r.Exhaustive(true)
 	r.Extra("sequence_length", L)
+	panickingReaders(t, r)
 	concurrentC11(t, r)
 	r.Finish(t)
 }
@@ -441,6 +442,103 @@ func concurrentC11(t *testing.T, r *ev.Run) {
 				for o := range orders {
 					r.SetAdd("completion_orders", fmt.Sprintf("%s|%d|%d|%s", impl, R, C, o))
 					r.Distinct(fmt.Sprintf("conc|%s|%d|%d|%s", impl, R, C, o))
+				}
+			}
+		}
+	}
+}
+
+// panickingReaders: a reader callback that panics (and whose panic the application recovers further up) is a reader
+// that is no longer running: the pages must be back to no-access, later readers must work and see the same bytes, and
+// Close must neither block nor fail. Every case runs in a bubble so that a Close waiting for a reader that will never
+// release is a detected deadlock.
+func panickingReaders(t *testing.T, r *ev.Run) {
+	type boom struct{}
+	for _, impl := range []string{"protectedmemory", "memguard"} {
+		for _, how := range []string{"WithBytes", "WithBytesFunc", "nested-inner", "nested-outer", "Reader.Read+WithBytes"} {
+			for _, size := range []int{1, 32, 4097} {
+				journal(fmt.Sprintf("C11 panicking reader impl=%s how=%s size=%d", impl, how, size))
+				var viol [][2]string
+				bad := func(sig, f string, a ...any) {
+					viol = append(viol, [2]string{sig + ":" + impl, fmt.Sprintf("%s size=%d panicking reader via %s: ", impl, size, how) + fmt.Sprintf(f, a...)})
+				}
+				pv := func() (pv any) {
+					defer func() { pv = recover() }()
+					synctest.Test(t, func(t *testing.T) {
+						src := make([]byte, size)
+						for i := range src {
+							src[i] = byte(i*7 + 3)
+						}
+						want := append([]byte(nil), src...)
+						s, err := implFactory(impl).New(src)
+						if err != nil {
+							bad("c11-create-failed", "%v", err)
+							return
+						}
+						var addr uintptr
+						s.WithBytes(func(b []byte) error { addr = uintptr(unsafe.Pointer(unsafe.SliceData(b))); return nil })
+						func() {
+							defer func() {
+								if p := recover(); p != nil {
+									if _, ok := p.(boom); !ok {
+										panic(p)
+									}
+								}
+							}()
+							switch how {
+							case "WithBytes":
+								s.WithBytes(func([]byte) error { panic(boom{}) })
+							case "WithBytesFunc":
+								s.WithBytesFunc(func([]byte) ([]byte, error) { panic(boom{}) })
+							case "nested-inner":
+								s.WithBytes(func([]byte) error {
+									_, e := s.WithBytesFunc(func([]byte) ([]byte, error) { panic(boom{}) })
+									return e
+								})
+							case "nested-outer":
+								s.WithBytes(func([]byte) error {
+									s.WithBytesFunc(func(b []byte) ([]byte, error) { return nil, nil })
+									panic(boom{})
+								})
+							default:
+								buf := make([]byte, 1)
+								s.NewReader().Read(buf)
+								s.WithBytes(func([]byte) error { panic(boom{}) })
+							}
+						}()
+						v := smaps(addr)
+						r.Count("smaps_samples", 1)
+						if !v.found || !strings.HasPrefix(v.perms, "---") {
+							bad("c11-page-accessible-when-idle", "page permissions are %q after the panicking reader was unwound, want ---", v.perms)
+						}
+						if e := s.WithBytes(func(b []byte) error {
+							if !bytes.Equal(b, want) {
+								bad("c11-reader-saw-other-bytes", "a later reader saw other bytes")
+							}
+							return nil
+						}); e != nil {
+							bad("c11-read-failed", "a later reader failed: %v", e)
+						}
+						if e := s.Close(); e != nil {
+							bad("c11-close-error", "Close: %v", e)
+						}
+						if v := smaps(addr); v.found && v.flags["lo"] {
+							bad("c11-still-locked-after-close", "after Close the address is still mapped (%s) and mlock'd", v.perms)
+						}
+					})
+					return nil
+				}()
+				r.Eval(1)
+				r.Count("panicking_reader_cases", 1)
+				if pv != nil {
+					sig := "c11-fault-or-panic:" + impl
+					if strings.Contains(fmt.Sprint(pv), "deadlock") {
+						sig = "c11-close-blocked-after-panicking-reader:" + impl
+					}
+					viol = append(viol, [2]string{sig, fmt.Sprintf("%s size=%d panicking reader via %s: %v", impl, size, how, pv)})
+				}
+				for _, v := range viol {
+					r.Violation(v[0], v[1], map[string]any{"impl": impl, "size": size, "how": how})
 				}
 			}
 		}
